@@ -83,18 +83,19 @@ func insertVertex(tx kvi.KVBulkWrite, idx *kvindex.KVIndex, graph string, vertex
 	return nil
 }
 
-func insertEdge(tx kvi.KVBulkWrite, idx *kvindex.KVIndex, graph string, edge *gripql.Edge) error {
+// insertEdge writes the three keys of an edge and returns the edge key
+func insertEdge(tx kvi.KVBulkWrite, idx *kvindex.KVIndex, graph string, edge *gripql.Edge) ([]byte, error) {
 	eid := edge.Gid
 	var err error
 	var data []byte
 
 	if err = edge.Validate(); err != nil {
-		return err
+		return nil, err
 	}
 
 	data, err = proto.Marshal(edge)
 	if err != nil {
-		return err
+		return nil, err
 	}
 
 	src := edge.From
@@ -105,19 +106,47 @@ func insertEdge(tx kvi.KVBulkWrite, idx *kvindex.KVIndex, graph string, edge *gr
 
 	err = tx.Set(ekey, data)
 	if err != nil {
-		return err
+		return nil, err
 	}
 	err = tx.Set(skey, []byte{})
 	if err != nil {
-		return err
+		return nil, err
 	}
 	err = tx.Set(dkey, []byte{})
 	if err != nil {
-		return err
+		return nil, err
 	}
 	err = idx.AddDocTx(tx, eid, map[string]interface{}{graph: edgeIdxStruct(edge)})
 	if err != nil {
-		return err
+		return nil, err
+	}
+	return ekey, nil
+}
+
+// removeStaleEdgeKeys drops the keys left behind by earlier versions of the
+// edges just written. The key of an edge embeds its endpoints and label, so
+// re-adding an edge id with other endpoints or another label writes new keys;
+// written maps every edge id of the batch to the key written last.
+func (kgdb *KVInterfaceGDB) removeStaleEdgeKeys(written map[string][]byte) error {
+	stale := [][]byte{}
+	kgdb.kvg.kv.View(func(it kvi.KVIterator) error {
+		for eid, keep := range written {
+			prefix := EdgeKeyPrefix(kgdb.graph, eid)
+			for it.Seek(prefix); it.Valid() && bytes.HasPrefix(it.Key(), prefix); it.Next() {
+				if !bytes.Equal(it.Key(), keep) {
+					stale = append(stale, append([]byte{}, it.Key()...))
+				}
+			}
+		}
+		return nil
+	})
+	for _, ekey := range stale {
+		_, eid, sid, did, label, etype := EdgeKeyParse(ekey)
+		for _, k := range [][]byte{ekey, SrcEdgeKey(kgdb.graph, sid, did, eid, label, etype), DstEdgeKey(kgdb.graph, sid, did, eid, label, etype)} {
+			if err := kgdb.kvg.kv.Delete(k); err != nil {
+				return err
+			}
+		}
 	}
 	return nil
 }
@@ -125,19 +154,22 @@ func insertEdge(tx kvi.KVBulkWrite, idx *kvindex.KVIndex, graph string, edge *gr
 // AddEdge adds an edge to the graph, if the id is not "" and in already exists
 // in the graph, it is replaced
 func (kgdb *KVInterfaceGDB) AddEdge(edges []*gdbi.Edge) error {
-	inserted := 0
+	written := map[string][]byte{}
 	err := kgdb.kvg.kv.BulkWrite(func(tx kvi.KVBulkWrite) error {
 		var bulkErr *multierror.Error
 		for _, edge := range edges {
-			if err := insertEdge(tx, kgdb.kvg.idx, kgdb.graph, edge.ToEdge()); err != nil {
+			if ekey, err := insertEdge(tx, kgdb.kvg.idx, kgdb.graph, edge.ToEdge()); err != nil {
 				bulkErr = multierror.Append(bulkErr, err)
 			} else {
-				inserted++
+				written[edge.ID] = ekey
 			}
 		}
 		return bulkErr.ErrorOrNil()
 	})
-	if inserted > 0 {
+	if len(written) > 0 {
+		if rerr := kgdb.removeStaleEdgeKeys(written); rerr != nil && err == nil {
+			err = rerr
+		}
 		kgdb.kvg.ts.Touch(kgdb.graph)
 	}
 	return err
@@ -145,6 +177,7 @@ func (kgdb *KVInterfaceGDB) AddEdge(edges []*gdbi.Edge) error {
 
 func (kgdb *KVInterfaceGDB) BulkAdd(stream <-chan *gdbi.GraphElement) error {
 	inserted := 0
+	written := map[string][]byte{}
 	err := kgdb.kvg.kv.BulkWrite(func(tx kvi.KVBulkWrite) error {
 		var bulkErr *multierror.Error
 		for elem := range stream {
@@ -157,16 +190,22 @@ func (kgdb *KVInterfaceGDB) BulkAdd(stream <-chan *gdbi.GraphElement) error {
 				continue
 			}
 			if elem.Edge != nil {
-				if err := insertEdge(tx, kgdb.kvg.idx, kgdb.graph, elem.Edge.ToEdge()); err != nil {
+				if ekey, err := insertEdge(tx, kgdb.kvg.idx, kgdb.graph, elem.Edge.ToEdge()); err != nil {
 					bulkErr = multierror.Append(bulkErr, err)
 				} else {
 					inserted++
+					written[elem.Edge.ID] = ekey
 				}
 				continue
 			}
 		}
 		return bulkErr.ErrorOrNil()
 	})
+	if len(written) > 0 {
+		if rerr := kgdb.removeStaleEdgeKeys(written); rerr != nil && err == nil {
+			err = rerr
+		}
+	}
 	if inserted > 0 {
 		kgdb.kvg.ts.Touch(kgdb.graph)
 	}
@@ -202,6 +241,9 @@ func (kgdb *KVInterfaceGDB) DelEdge(eid string) error {
 	if err := kgdb.kvg.kv.Delete(dkey); err != nil {
 		return err
 	}
+	if err := kgdb.kvg.unindexLabel(kgdb.graph, "e", label, eid); err != nil {
+		return err
+	}
 	kgdb.kvg.ts.Touch(kgdb.graph)
 	return nil
 }
@@ -215,15 +257,22 @@ func (kgdb *KVInterfaceGDB) DelVertex(id string) error {
 	delKeys := make([][]byte, 0, 1000)
 
 	found := false
+	vlabel := ""
 	kgdb.kvg.kv.View(func(it kvi.KVIterator) error {
-		if _, err := it.Get(vid); err == nil {
+		if data, err := it.Get(vid); err == nil {
 			found = true
+			gv := &gripql.Vertex{}
+			if proto.Unmarshal(data, gv) == nil {
+				vlabel = gv.Label
+			}
 		}
 		return nil
 	})
 	if !found {
 		return fmt.Errorf("Vertex Not Found")
 	}
+	// ids and labels of the incident edges removed together with the vertex
+	delEdges := map[string]string{}
 
 	kgdb.kvg.kv.View(func(it kvi.KVIterator) error {
 		for it.Seek(skeyPrefix); it.Valid() && bytes.HasPrefix(it.Key(), skeyPrefix); it.Next() {
@@ -233,6 +282,7 @@ func (kgdb *KVInterfaceGDB) DelVertex(id string) error {
 			ekey := EdgeKey(kgdb.graph, eid, sid, did, label, etype)
 			dkey := DstEdgeKey(kgdb.graph, sid, did, eid, label, etype)
 			delKeys = append(delKeys, skey, dkey, ekey)
+			delEdges[eid] = label
 		}
 		for it.Seek(dkeyPrefix); it.Valid() && bytes.HasPrefix(it.Key(), dkeyPrefix); it.Next() {
 			dkey := it.Key()
@@ -241,11 +291,12 @@ func (kgdb *KVInterfaceGDB) DelVertex(id string) error {
 			ekey := EdgeKey(kgdb.graph, eid, sid, did, label, etype)
 			skey := SrcEdgeKey(kgdb.graph, sid, did, eid, label, etype)
 			delKeys = append(delKeys, skey, dkey, ekey)
+			delEdges[eid] = label
 		}
 		return nil
 	})
 
-	return kgdb.kvg.kv.Update(func(tx kvi.KVTransaction) error {
+	err := kgdb.kvg.kv.Update(func(tx kvi.KVTransaction) error {
 		if err := tx.Delete(vid); err != nil {
 			return err
 		}
@@ -257,6 +308,18 @@ func (kgdb *KVInterfaceGDB) DelVertex(id string) error {
 		kgdb.kvg.ts.Touch(kgdb.graph)
 		return nil
 	})
+	if err != nil {
+		return err
+	}
+	if err := kgdb.kvg.unindexLabel(kgdb.graph, "v", vlabel, id); err != nil {
+		return err
+	}
+	for eid, label := range delEdges {
+		if err := kgdb.kvg.unindexLabel(kgdb.graph, "e", label, eid); err != nil {
+			return err
+		}
+	}
+	return nil
 }
 
 // GetEdgeList produces a channel of all edges in the graph
